@@ -980,7 +980,17 @@ func callBuiltin(caller *frame, fn *ssa.Builtin, args []value) value {
 			return append(args[0].([]value), strBytes(s)...)
 		}
 		// append([]T, ...[]T) []T
-		return append(args[0].([]value), args[1].([]value)...)
+		// Slice elements are memory cells: aggregate values must not share
+		// storage with their source (which may overlap the destination).
+		src := args[1].([]value)
+		if len(src) > 0 && isAggregate(src[0]) {
+			cp := make([]value, len(src))
+			for i, e := range src {
+				cp[i] = copyval(e)
+			}
+			src = cp
+		}
+		return append(args[0].([]value), src...)
 
 	case "copy": // copy([]T, []T) int or copy([]byte, string) int
 		src := args[1]
@@ -988,7 +998,15 @@ func callBuiltin(caller *frame, fn *ssa.Builtin, args []value) value {
 		case string, symString:
 			src = strBytes(s)
 		}
-		return copy(args[0].([]value), src.([]value))
+		srcv := src.([]value)
+		if len(srcv) > 0 && isAggregate(srcv[0]) {
+			cp := make([]value, len(srcv))
+			for i, e := range srcv {
+				cp[i] = copyval(e)
+			}
+			srcv = cp
+		}
+		return copy(args[0].([]value), srcv)
 
 	case "close": // close(chan T)
 		chanClose(caller, args[0].(*channel))
@@ -1525,4 +1543,31 @@ func fandbits[F floaty](x, y F) F {
 		*(*uint64)(unsafe.Pointer(&x)) &= *(*uint64)(unsafe.Pointer(&y))
 	}
 	return x
+}
+
+func isAggregate(v value) bool {
+	switch v.(type) {
+	case structure, array:
+		return true
+	}
+	return false
+}
+
+// copyval returns a copy of v that shares no struct/array storage with it.
+func copyval(v value) value {
+	switch v := v.(type) {
+	case structure:
+		c := make(structure, len(v))
+		for i, e := range v {
+			c[i] = copyval(e)
+		}
+		return c
+	case array:
+		c := make(array, len(v))
+		for i, e := range v {
+			c[i] = copyval(e)
+		}
+		return c
+	}
+	return v
 }
